@@ -142,6 +142,24 @@ def model_cases(draw, tier):
             "warmup": draw(st.sampled_from([None, None, "same", "perturbed", "transposed_shape"]))}
 
 
+@st.composite
+def long_model_cases(draw, tier):
+    """One long dimension against <= 3 (tall / wide), generic full-rank entries."""
+    Lg, sh = draw(gen.long_dim(cap=257 if tier == "quick" else 520)), draw(st.integers(1, 3))
+    A, pat = draw(gen.long_qarray(Lg, sh, draw(st.sampled_from(["generic", "int"]))))
+    if draw(st.booleans()):
+        A = np.ascontiguousarray(np.swapaxes(A, 0, 1))
+    A = A / 8.0
+    order = draw(st.sampled_from([2, 2, 3]))
+    gamma = draw(st.sampled_from(GAMMAS)) if order == 2 else 1.0
+    k = draw(st.integers(1, 10))
+    kk = draw(st.integers(k, 10))
+    return {"A": A, "kind": "pattern:" + pat, "order": order, "gamma": gamma, "k": k, "K": kk,
+            "compute_residuals": draw(st.booleans()) if order == 2 else True,
+            "sparse": draw(st.booleans()) if order == 2 else False,
+            "warmup": draw(st.sampled_from([None, None, "same"]))}
+
+
 def check_model(case):
     A, order, gamma, k, K = case["A"], case["order"], case["gamma"], case["k"], case["K"]
     m, n, _ = A.shape
@@ -324,6 +342,8 @@ PROPERTY = Property(
     rule="rank-deficient input, or m < n, or cond(A) > 10, or a repeated/clustered singular value",
     clauses=[
         Clause("spectral_model", check_model, strategy=model_cases, budget={"quick": 900, "thorough": 12000}),
+        Clause("spectral_model_long_dimension", check_model, strategy=long_model_cases, budget={"quick": 24, "thorough": 240},
+               shrink=False),
         Clause("stop_on_tolerance", check_stop, strategy=stop_cases, budget={"quick": 300, "thorough": 4000}),
         Clause("beyond_safe_budget", check_beyond, strategy=beyond_cases, budget={"quick": 60, "thorough": 600}),
     ],
